@@ -168,7 +168,7 @@ common::register! {
     q_to_tfb = to_tfb::<_, 32, false> => 2,
     q_to_pfb = to_pfb::<_, 32, false> => 2,
     q_to_sdes = to_sdes::<_, 32, false> => 2,
-    q_sdes_to_sdes = to_sdes::<_, 8, true> => 2,
+    t_sdes_to_sdes_8 = to_sdes::<_, 8, true> => 2,
     t_sdes_to_sdes_12 = to_sdes::<_, 12, true> => 2,
     q_sdes_to_bye = to_bye::<_, 12, true> => 2,
     q_unknown = unknown::<_, 64> => 2,
